@@ -197,6 +197,14 @@ pub fn run(ctx: &mut Ctx) {
         }
         std::thread::sleep(Duration::from_millis(20));
     }
+    // silent / half-written connections to the metrics listener must not delay the others
+    let _silent: Vec<std::net::TcpStream> = (0..2).filter_map(|_| std::net::TcpStream::connect_timeout(&maddr, Duration::from_secs(2)).ok()).collect();
+    let mut _half = std::net::TcpStream::connect_timeout(&maddr, Duration::from_secs(2)).ok();
+    if let Some(h) = _half.as_mut() {
+        use std::io::Write;
+        let _ = h.write_all(b"GET /metr");
+    }
+    std::thread::sleep(Duration::from_millis(30));
     match http_get(maddr, "/health-check") {
         Some((200, _)) => {}
         other => ctx.oracle_failure("health_check", &format!("GET /health-check on the metrics listener was answered {:?}", other.map(|x| x.0))),
